@@ -78,7 +78,7 @@ theorem writeAll_flush_run (cs : List Bytes) (env : Env) (buf : Bytes) :
     simp only [writeAllM, bind, M.bind, pure, M.pure, Prog.bind, flushM]
     cases buf <;> simp [Prog.runPure]
   | cons c cs ih =>
-    simp only [writeAllM, bind, M.bind, Prog.bind, writeM, Bool.false_eq_true, if_false]
+    simp only [writeAllM, bind, M.bind, writeM, Bool.false_eq_true, if_false]
     cases buf with
     | nil =>
       simp only [List.isEmpty_nil, if_true, Prog.bind]
